@@ -58,57 +58,65 @@ def _append_steps():
     return steps
 
 
+def _one_assign(src, f, target_text, what):
+    a = [n for n in ast.walk(f) if isinstance(n, ast.Assign) and len(n.targets) == 1 and ast.unparse(n.targets[0]) == target_text]
+    if len(a) != 1:
+        src.fail(f"expected exactly one assignment to {target_text} ({what})", f)
+    return a[0]
+
+
 def _run_facts():
+    """Follows the data flow backwards from the Popen call, so local names may change."""
     src = Src("jade/jobs/async_cli_command.py")
     f = src.func("run", "AsyncCliCommand")
-    # cmd = shlex.split(self._cli_cmd, posix=...)
-    splits = [n for n in ast.walk(f) if isinstance(n, ast.Assign) and ast.unparse(n.targets[0]) == "cmd"]
-    if len(splits) != 1:
-        src.fail("expected exactly one assignment to cmd in AsyncCliCommand.run", f)
-    call = splits[0].value
+    pop = calls_in(f, "Popen")
+    if len(pop) != 1 or len(pop[0].args) != 1 or not isinstance(pop[0].args[0], ast.Name):
+        src.fail("expected one subprocess.Popen(<name>, ...)", f)
+    kws = {k.arg: k.value for k in pop[0].keywords}
+    if sorted(kws) != ["env", "stderr", "stdout"]:
+        src.fail(f"Popen keywords are {sorted(kws)}, expected env, stderr, stdout", pop[0])
+    # argv = shlex.split(self._cli_cmd, posix=...)
+    cmd_assign = _one_assign(src, f, pop[0].args[0].id, "the argument vector given to Popen")
+    call = cmd_assign.value
     if not (isinstance(call, ast.Call) and attr_path(call.func) == ["shlex", "split"] and len(call.args) == 1
             and ast.unparse(call.args[0]) == "self._cli_cmd"):
-        src.fail(f"the command is not split with shlex.split(self._cli_cmd, ...): {ast.unparse(splits[0])!r}", splits[0])
+        src.fail(f"the command is not split with shlex.split(self._cli_cmd, ...): {ast.unparse(cmd_assign)!r}", cmd_assign)
     px = kwarg(call, "posix")
     if px is not None and ast.unparse(px) != "'win' not in sys.platform":
         src.fail(f"unexpected posix= argument {ast.unparse(px)!r}", call)
     if any(k.arg not in ("posix",) for k in call.keywords):
         src.fail("unexpected keyword of shlex.split", call)
-    # env[...] = ...
+    # env
+    if not isinstance(kws["env"], ast.Name):
+        src.fail("env= is not a local name", pop[0])
+    envname = kws["env"].id
+    base = _one_assign(src, f, envname, "the environment given to Popen")
+    if ast.unparse(base.value) != "os.environ.copy()":
+        src.fail("the environment is not os.environ.copy()", base)
     env_vals = {"str(self._output)": "output", "self.name": "name", "self._job.name": "name"}
     envs = []
     for n in ast.walk(f):
-        if isinstance(n, ast.Assign) and isinstance(n.targets[0], ast.Subscript) and ast.unparse(n.targets[0].value) == "env":
+        if isinstance(n, ast.Assign) and isinstance(n.targets[0], ast.Subscript) and ast.unparse(n.targets[0].value) == envname:
             key = const_str(src, n.targets[0].slice)
             val = ast.unparse(n.value)
             if val not in env_vals:
                 src.fail(f"environment variable {key} is set to {val!r}: not modelled", n)
-            envs.append(f"({cstr(key)}, {cstr(env_vals[val])})")
-    base = [n for n in ast.walk(f) if isinstance(n, ast.Assign) and ast.unparse(n.targets[0]) == "env"]
-    if len(base) != 1 or ast.unparse(base[0].value) != "os.environ.copy()":
-        src.fail("env is not os.environ.copy()", f)
-    # stdio file names
+            envs.append((key, env_vals[val]))
+    if len(set(k for k, _ in envs)) != len(envs):
+        src.fail("an environment variable is set twice", f)
+    envs = [f"({cstr(k)}, {cstr(v)})" for k, v in sorted(envs, reverse=True)]   # order of assignment is immaterial
+    # stdout / stderr -> self._stdxxx_fp = open(<name>, 'w'); <name> = self._output / JOBS_STDIO_DIR / f"..."
     names = {}
-    for var in ("stdout_filename", "stderr_filename"):
-        a = [n for n in ast.walk(f) if isinstance(n, ast.Assign) and ast.unparse(n.targets[0]) == var]
-        if len(a) != 1:
-            src.fail(f"expected one assignment to {var}", f)
-        v = a[0].value
-        if not (isinstance(v, ast.BinOp) and isinstance(v.op, ast.Div) and ast.unparse(v.left) == "self._output / JOBS_STDIO_DIR"):
-            src.fail(f"{var} is not self._output / JOBS_STDIO_DIR / <name>", a[0])
-        names[var] = clist(fstring_template(src, v.right, {"self._job.name": "name", "self.name": "name"}))
-    fps = {}
-    for var, fn in (("self._stdout_fp", "stdout_filename"), ("self._stderr_fp", "stderr_filename")):
-        a = [n for n in ast.walk(f) if isinstance(n, ast.Assign) and ast.unparse(n.targets[0]) == var]
-        if len(a) != 1 or ast.unparse(a[0].value) != f"open({fn}, 'w')":
-            src.fail(f"{var} is not open({fn}, 'w')", f)
-    pop = calls_in(f, "Popen")
-    if len(pop) != 1 or len(pop[0].args) != 1 or ast.unparse(pop[0].args[0]) != "cmd":
-        src.fail("expected one subprocess.Popen(cmd, ...)", f)
-    want = {"env": "env", "stdout": "self._stdout_fp", "stderr": "self._stderr_fp"}
-    got = {k.arg: ast.unparse(k.value) for k in pop[0].keywords}
-    if got != want:
-        src.fail(f"Popen keywords are {got}, expected {want}", pop[0])
+    for stream in ("stdout", "stderr"):
+        fp = _one_assign(src, f, ast.unparse(kws[stream]), f"the {stream} file object")
+        v = fp.value
+        if not (isinstance(v, ast.Call) and ast.unparse(v.func) == "open" and len(v.args) == 2 and isinstance(v.args[0], ast.Name)
+                and ast.unparse(v.args[1]) == "'w'" and not v.keywords):
+            src.fail(f"{stream} is not open(<file name>, 'w')", fp)
+        fn = _one_assign(src, f, v.args[0].id, f"the {stream} file name").value
+        if not (isinstance(fn, ast.BinOp) and isinstance(fn.op, ast.Div) and ast.unparse(fn.left) == "self._output / JOBS_STDIO_DIR"):
+            src.fail(f"the {stream} file name is not self._output / JOBS_STDIO_DIR / <name>", fn)
+        names[stream + "_filename"] = clist(fstring_template(src, fn.right, {"self._job.name": "name", "self.name": "name"}))
     common = Src("jade/common.py")
     stdio_dir = const_str(common, common.assign("JOBS_STDIO_DIR"))
     return envs, names, stdio_dir
